@@ -5,6 +5,7 @@
 import Lessm.Model.Color
 import Lessm.Model.Sign
 import Lessm.Model.NumE
+import Lessm.Model.IdentFmt
 import Lessm.Model.Builtins
 import Lessm.Model.Guard
 import Lessm.Model.ExprGen
@@ -113,6 +114,22 @@ partial def itemOfJson (j : Json) : Except String Nest.Item := do
       let b ← (← j.getObjVal? "b").getArr?
       let items ← b.toList.mapM itemOfJson
       pure (.rule r.toList items)
+
+open Lean in
+/-- c01.identfmt: {"ws": s, "nl": s, "parsed": [[tok, …], …]} -> the text `Identifier.fmt` prints, as a JSON string -/
+def identFmt (payload : String) : String :=
+  match Json.parse payload with
+  | .error e => "bad-json " ++ e
+  | .ok j =>
+      match (do
+          let ws ← j.getObjValAs? String "ws"
+          let nl ← j.getObjValAs? String "nl"
+          let parsed ← j.getObjValAs? (Array (Array String)) "parsed"
+          pure (ws, nl, parsed) : Except String (String × String × Array (Array String))) with
+      | .error e => "bad-json " ++ e
+      | .ok (ws, nl, parsed) =>
+          (Json.str (String.ofList (IdentFmt.fmt ws.toList nl.toList
+            (parsed.toList.map (fun p => p.toList.map String.toList))))).compress
 
 open Lean in
 def nestFlat (payload : String) : String :=
@@ -703,6 +720,7 @@ def handle (op : String) (payload : String) : String :=
     -- payloads whose fields may contain spaces are separated by U+001F
     match op, payload.splitOn "\x1f" with
     | "c02.flat", [j] => nestFlat j
+    | "c01.identfmt", [j] => identFmt j
     | "c10.fix", [j] => fixRun j
     | "c03.run", [j] => VarsIO.run j
     | "c07.run", [j] => MediaIO.run j
